@@ -3,6 +3,462 @@ import Mathlib.Algebra.Order.Field.Basic
 import TjdModel.Agg.Spec2
 import TjdLemmas.EquivLemmas
 import TjdLemmas.HomogLemmas
-namespace Tjd.Agg
+import TjdLemmas.RobustLemmas
+import TjdLemmas.FWLemmas
+import TjdLemmas.ImpartialLemmas
+namespace Tjd.Agg.PermL
+open Tjd Tjd.Agg Tjd.Agg.Eqv
+set_option linter.unusedSectionVars false
+set_option linter.unusedSimpArgs false
+set_option linter.unusedVariables false
 
-end Tjd.Agg
+variable {α : Type} [Field α] [LinearOrder α] [IsStrictOrderedRing α]
+
+/-! ### Krum -/
+
+theorem krumScores_scale (D : Mat α) (f : Nat) (t : α) (ht : 0 < t) :
+    krumScores (D.map (smul t)) f = (krumScores D f).map (t * ·) := by
+  unfold krumScores smallest
+  simp only [List.length_map, List.map_map]
+  apply List.map_congr_left
+  intro row _
+  simp only [Function.comp]
+  show ((sortAsc (row.map (t * ·))).take _ |>.drop 1).sum = _
+  rw [Homog.sortAsc_map_mul t ht, ← List.map_take, ← List.map_drop, Homog.list_sum_map_mul]
+
+theorem lowestK_fst_scale (scores : Vec α) (k : Nat) (t : α) (ht : 0 < t) :
+    (lowestK (scores.map (t * ·)) k).1 = (lowestK scores k).1 := by
+  rw [lowestK_fst, lowestK_fst]
+  unfold krumSorted
+  have hz : (scores.map (t * ·)).zipIdx = scores.zipIdx.map (Prod.map (t * ·) id) := by
+    rw [List.zipIdx_map]
+  have hs : (scores.zipIdx.map (Prod.map (t * ·) id)).mergeSort (fun a b => decide (a.1 ≤ b.1)) =
+      (scores.zipIdx.mergeSort (fun a b => decide (a.1 ≤ b.1))).map (Prod.map (t * ·) id) := by
+    symm
+    apply List.map_mergeSort
+    intro a _ b _
+    rw [decide_eq_decide]
+    exact (mul_le_mul_iff_right₀ ht).symm
+  rw [hz, hs, ← List.map_take, List.map_map]
+  rfl
+
+theorem krumWeights_scale (D : Mat α) (f k : Nat) (t : α) (ht : 0 < t) :
+    (krumWeights (D.map (smul t)) f k).1 = (krumWeights D f k).1 := by
+  rw [krumWeights_fst, krumWeights_fst, krumScores_scale D f t ht, lowestK_fst_scale _ k t ht,
+    List.length_map]
+
+/-! ### permV basics -/
+section perm
+variable [Inhabited α]
+
+theorem permV_getD0 (p : List Nat) (m : Nat) (hp : p.Perm (List.range m)) (v : Vec α)
+    (hv : v.length = m) (k : Nat) (hk : k < p.length) :
+    (permV p v).getD k 0 = v.getD p[k] 0 := by
+  rw [permV_getD p v k hk 0, getD_congr_default v default 0 _
+    (by rw [hv]; exact perm_lt hp _ (List.getElem_mem _))]
+
+theorem permV_smul (p : List Nat) (m : Nat) (hp : p.Perm (List.range m)) (c : α) (v : Vec α)
+    (hv : v.length = m) : permV p (smul c v) = smul c (permV p v) := by
+  simp only [permV, smul, List.map_map]
+  apply List.map_congr_left
+  intro i hi
+  have hi' : i < v.length := by rw [hv]; exact perm_lt hp i hi
+  simp only [Function.comp]
+  rw [getD_eq_getElem' _ _ i (by simpa using hi'), getD_eq_getElem' _ _ i hi', List.getElem_map]
+
+theorem permV_vadd (p : List Nat) (m : Nat) (hp : p.Perm (List.range m)) (x y : Vec α)
+    (hx : x.length = m) (hy : y.length = m) :
+    permV p (vadd x y) = vadd (permV p x) (permV p y) := by
+  simp only [permV, vadd]
+  rw [zipWith_map_self]
+  apply List.map_congr_left
+  intro i hi
+  have hi' : i < m := perm_lt hp i hi
+  rw [getD_eq_getElem' _ _ i (by simp [hx, hy, hi']), getD_eq_getElem' _ _ i (by omega),
+    getD_eq_getElem' _ _ i (by omega), List.getElem_zipWith]
+
+theorem zipWith_congr_mem {β γ δ : Type} (f g : β → γ → δ) : ∀ (l : List β) (l' : List γ),
+    (∀ a ∈ l, ∀ b, f a b = g a b) → List.zipWith f l l' = List.zipWith g l l'
+  | [], _, _ => by simp
+  | _ :: _, [], _ => by simp
+  | a :: l, b :: l', h => by
+    rw [List.zipWith_cons_cons, List.zipWith_cons_cons, h a (by simp) b,
+      zipWith_congr_mem f g l l' (fun a' ha' b' => h a' (by simp [ha']) b')]
+
+/-! ### Aligned-MTL -/
+
+theorem alignedCert_of_spec (M vecs : Mat α) (sigma : Vec α)
+    (h1 : vecs.length = sigma.length) (h2 : ∀ s ∈ sigma, 0 < s)
+    (h3 : ∀ i j, i < vecs.length → j < vecs.length →
+      dot (vecs.getD i []) (vecs.getD j []) = if i = j then 1 else 0)
+    (h4 : ∀ a b, a < M.length → b < M.length → (M.getD a []).getD b 0 =
+      (List.zipWith (fun v s => s * s * v.getD a 0 * v.getD b 0) vecs sigma).sum) :
+    alignedCert M vecs sigma = true := by
+  simp only [alignedCert, Bool.and_eq_true, beq_iff_eq, List.all_eq_true, decide_eq_true_eq]
+  refine ⟨⟨⟨h1, h2⟩, ?_⟩, ?_⟩
+  · rintro ⟨v, i⟩ hv ⟨w, j⟩ hw
+    rw [List.mk_mem_zipIdx_iff_getElem?] at hv hw
+    obtain ⟨hi, rfl⟩ := List.getElem?_eq_some_iff.mp hv
+    obtain ⟨hj, rfl⟩ := List.getElem?_eq_some_iff.mp hw
+    have := h3 i j hi hj
+    rwa [getD_eq_getElem' _ _ i hi, getD_eq_getElem' _ _ j hj] at this
+  · intro a ha b hb
+    exact h4 a b (List.mem_range.mp ha) (List.mem_range.mp hb)
+
+theorem gram_rows_length (J : Mat α) : ∀ row ∈ gram J, row.length = J.length := by
+  intro row hrow
+  obtain ⟨r, _, rfl⟩ := List.mem_map.mp hrow
+  simp
+
+theorem alignedCert_perm (J : Mat α) (m n : Nat) (hJ : MatWF J m n) (vecs : Mat α) (sigma : Vec α)
+    (hv : ∀ v ∈ vecs, v.length = m) (p : List Nat) (hp : p.Perm (List.range m))
+    (hcert : alignedCert (gram J) vecs sigma = true) :
+    alignedCert (gram (permV p J)) (vecs.map (permV p)) sigma = true := by
+  have hpl := perm_length hp
+  have hgl : (gram J).length = m := by rw [Eqv.gram_length, hJ.1]
+  have hgr : ∀ row ∈ gram J, row.length = m := by
+    intro row hrow; rw [gram_rows_length J row hrow, hJ.1]
+  obtain ⟨h1, h2, h3, h4⟩ := alignedCert_spec _ _ _ hcert
+  apply alignedCert_of_spec
+  · rw [List.length_map]; exact h1
+  · exact h2
+  · intro i j hi hj
+    rw [List.length_map] at hi hj
+    rw [getD_map_row (permV p) vecs i hi [] [], getD_map_row (permV p) vecs j hj [] [],
+      dot_permV p m hp _ _ (hv _ (getD_mem vecs _ i hi)) (hv _ (getD_mem vecs _ j hj))]
+    exact h3 i j hi hj
+  · intro a b ha hb
+    have hJ' := permV_matWF J m n hJ p hp
+    rw [Eqv.gram_length, hJ'.1] at ha hb
+    have hpa : p[a] < m := perm_lt hp _ (List.getElem_mem _)
+    have hpb : p[b] < m := perm_lt hp _ (List.getElem_mem _)
+    rw [gram_row_perm' J m n hJ p (perm_lt hp),
+      permV_getD_getD (gram J) m hgl hgr p hp a b (by omega) (by omega),
+      h4 p[a] p[b] (by omega) (by omega), List.zipWith_map_left]
+    congr 1
+    apply zipWith_congr_mem
+    intro v hvm s
+    rw [permV_getD0 p m hp v (hv v hvm) a (by omega), permV_getD0 p m hp v (hv v hvm) b (by omega)]
+
+theorem aligned_row_perm' (J : Mat α) (m n : Nat) (hJ : MatWF J m n) (vecs : Mat α)
+    (sigma w : Vec α) (hv : ∀ v ∈ vecs, v.length = m) (hw : w.length = m) (p : List Nat)
+    (hp : p.Perm (List.range m)) (hcert : alignedCert (gram J) vecs sigma = true) (hs : sigma ≠ []) :
+    alignedWeights (permV p J) (vecs.map (permV p)) sigma (permV p w) =
+      (alignedWeights J vecs sigma w).map (permV p) := by
+  have hpl := perm_length hp
+  have hJ' := permV_matWF J m n hJ p hp
+  have hcert' := alignedCert_perm J m n hJ vecs sigma hv p hp hcert
+  have hse : sigma.isEmpty = false := by
+    cases sigma with
+    | nil => exact absurd rfl hs
+    | cons => rfl
+  unfold alignedWeights
+  simp only [hse, hcert, hcert', if_true, Bool.false_eq_true, if_false, Option.map_some,
+    Eqv.gram_length, hJ.1, hJ'.1]
+  congr 1
+  rw [permV_vsum m _ (fun x hx => by
+      obtain ⟨i, hi, rfl⟩ := List.mem_iff_getElem.mp hx
+      rw [List.getElem_zipWith, smul_length]
+      exact hv _ (List.getElem_mem _)) p hp,
+    List.zipWith_map_left, List.map_zipWith]
+  congr 1
+  apply zipWith_congr_mem
+  intro v hvm s
+  rw [dot_permV p m hp v w (hv v hvm) hw, permV_smul p m hp _ v (hv v hvm)]
+
+/-! ### ConFIG / IMTL-G -/
+
+theorem permV_inj (m : Nat) (p : List Nat) (hp : p.Perm (List.range m)) (x y : Vec α)
+    (hx : x.length = m) (hy : y.length = m) (h : permV p x = permV p y) : x = y := by
+  apply vec_ext m x y hx hy
+  intro k hk
+  have hkp : k ∈ p := hp.mem_iff.mpr (List.mem_range.mpr hk)
+  have ht : p.idxOf k < p.length := List.idxOf_lt_length_iff.mpr hkp
+  have hpt : p[p.idxOf k] = k := List.getElem_idxOf ht
+  have : (permV p x).getD (p.idxOf k) 0 = (permV p y).getD (p.idxOf k) 0 := by rw [h]
+  rwa [permV_getD0 p m hp x hx _ ht, permV_getD0 p m hp y hy _ ht, hpt] at this
+
+theorem permV_map (p : List Nat) (m : Nat) (hp : p.Perm (List.range m)) (f : α → α) (v : Vec α)
+    (hv : v.length = m) : permV p (v.map f) = (permV p v).map f := by
+  simp only [permV, List.map_map]
+  apply List.map_congr_left
+  intro i hi
+  have hi' : i < v.length := by rw [hv]; exact perm_lt hp i hi
+  simp only [Function.comp]
+  rw [getD_eq_getElem' _ _ i (by simpa using hi'), getD_eq_getElem' _ _ i hi', List.getElem_map]
+
+theorem permV_zeros (p : List Nat) (m : Nat) (hp : p.Perm (List.range m)) :
+    permV p (zeros m : Vec α) = zeros m := by
+  have hpl := perm_length hp
+  apply List.ext_getElem (by rw [permV_length, hpl, zeros_length])
+  intro t h1 h2
+  rw [permV_getElem, getD_eq_getElem' _ _ _ (by
+    rw [zeros_length]; exact perm_lt hp _ (List.getElem_mem _))]
+  simp [zeros]
+
+theorem unitRows_permV (J : Mat α) (m n : Nat) (hJ : MatWF J m n) (d : Vec α) (hd : d.length = m)
+    (p : List Nat) (hp : p.Perm (List.range m)) :
+    unitRows (permV p J) (permV p d) = permV p (unitRows J d) := by
+  simp only [unitRows, permV]
+  rw [zipWith_map_self]
+  apply List.map_congr_left
+  intro i hi
+  have hi' : i < m := perm_lt hp i hi
+  have hJ1 := hJ.1
+  rw [getD_eq_getElem' J _ i (by omega), getD_eq_getElem' d _ i (by omega),
+    getD_eq_getElem' _ _ i (by simp [hJ.1, hd, hi']), List.getElem_zipWith]
+
+/-- a solution of the conjugated system is the permuted solution of the original one -/
+theorem solution_perm (G : Mat α) (m : Nat) (hG1 : G.length = m) (hG2 : ∀ row ∈ G, row.length = m)
+    (b y y' : Vec α) (hb : b.length = m) (hy : y.length = m) (hy' : y'.length = m)
+    (p : List Nat) (hp : p.Perm (List.range m))
+    (huniq : ∀ z z' : Vec α, z.length = m → z'.length = m → matVec G z = b → matVec G z' = b → z = z')
+    (h : matVec G y = b) (h' : matVec (permV p (G.map (permV p))) y' = permV p b) :
+    y' = permV p y := by
+  obtain ⟨y0, hy0, rfl⟩ := permV_surj m p hp y' hy'
+  rw [matVec_permV G m hG1 hG2 y0 hy0 p hp] at h'
+  have := permV_inj m p hp _ _ (by rw [matVec_length, hG1]) hb h'
+  rw [huniq y0 y hy0 hy this h]
+
+theorem config_row_perm' (J : Mat α) (m n : Nat) (hJ : MatWF J m n) (d w : Vec α)
+    (hd : d.length = m) (hw : w.length = m) (p : List Nat) (hp : p.Perm (List.range m))
+    (huniq : ∀ y y' : Vec α, y.length = m → y'.length = m →
+        matVec (gram (unitRows J d)) y = w → matVec (gram (unitRows J d)) y' = w → y = y')
+    (x x' : Vec α) (h : configVec J d w n = some x)
+    (h' : configVec (permV p J) (permV p d) (permV p w) n = some x') : x' = x := by
+  have hpl := perm_length hp
+  have hU := unitRows_matWF J m n hJ d hd
+  obtain ⟨y, hy, hcheck, hx⟩ := configVec_cases J d w n x h
+  obtain ⟨y', hy', hcheck', hx'⟩ := configVec_cases _ _ _ n x' h'
+  have hyl : y.length = m := by rw [Eqv.solve_length _ _ _ _ hy, hw]
+  have hyl' : y'.length = m := by rw [Eqv.solve_length _ _ _ _ hy', permV_length, hpl]
+  rw [unitRows_permV J m n hJ d hd p hp] at hcheck' hx'
+  have hgl : (gram (unitRows J d)).length = m := by rw [Eqv.gram_length, hU.1]
+  have hgr : ∀ row ∈ gram (unitRows J d), row.length = m := by
+    intro row hrow; rw [gram_rows_length _ row hrow, hU.1]
+  rw [gram_row_perm' _ m n hU p (perm_lt hp)] at hcheck'
+  have hyy := solution_perm _ m hgl hgr w y y' hw hyl hyl' p hp huniq hcheck hcheck'
+  subst hyy
+  rw [combine_row_perm' _ m n hU y hyl p hp] at hx'
+  have hlen : ((permV p J).map fun row => dot row (combine n (unitRows J d) y)).sum =
+      (J.map fun row => dot row (combine n (unitRows J d) y)).sum :=
+    ((permV_perm p J (by rw [hJ.1]; exact hp)).map _).sum_eq
+  rw [hlen] at hx'
+  rcases hx with ⟨hb, rfl⟩ | ⟨hb, rfl⟩ <;> rcases hx' with ⟨hb', rfl⟩ | ⟨hb', rfl⟩
+  · rfl
+  · exact absurd hb hb'
+  · exact absurd hb' hb
+  · rfl
+
+theorem imtlg_row_perm' (J : Mat α) (m n : Nat) (hJ : MatWF J m n) (d : Vec α)
+    (hd : d.length = m) (guard : α) (p : List Nat) (hp : p.Perm (List.range m))
+    (huniq : ∀ v v' : Vec α, v.length = m → v'.length = m → matVec (gram J) v = d →
+        matVec (gram J) v' = d → v = v')
+    (w w' : Vec α) (h : imtlgWeights J d guard = some w)
+    (h' : imtlgWeights (permV p J) (permV p d) guard = some w') :
+    combine n (permV p J) w' = combine n J w := by
+  have hpl := perm_length hp
+  obtain ⟨v, hvl, hv, hwv⟩ := Homog.imtlg_spec J d guard w h
+  obtain ⟨v', hvl', hv', hwv'⟩ := Homog.imtlg_spec _ _ guard w' h'
+  rw [permV_length, hpl] at hvl' hwv'
+  rw [hd] at hvl hwv
+  have hgl : (gram J).length = m := by rw [Eqv.gram_length, hJ.1]
+  have hgr : ∀ row ∈ gram J, row.length = m := by
+    intro row hrow; rw [gram_rows_length _ row hrow, hJ.1]
+  rw [gram_row_perm' _ m n hJ p (perm_lt hp)] at hv'
+  have hvv := solution_perm _ m hgl hgr d v v' hd hvl hvl' p hp huniq hv hv'
+  subst hvv
+  have hperm := permV_perm p v (by rw [hvl]; exact hp)
+  have e1 : (permV p v).sum = v.sum := hperm.sum_eq
+  have e2 : ((permV p v).map absV).sum = (v.map absV).sum := (hperm.map _).sum_eq
+  rw [e1, e2] at hwv'
+  have hww : w' = permV p w := by
+    rw [hwv, hwv']
+    split_ifs
+    · exact (permV_zeros p m hp).symm
+    · exact (permV_map p m hp _ v hvl).symm
+  have hwl : w.length = m := by
+    rw [hwv]; split_ifs
+    · exact zeros_length m
+    · rw [List.length_map, hvl]
+  rw [hww]
+  exact combine_row_perm' J m n hJ w hwl p hp
+
+end perm
+
+/-! ### Frank–Wolfe step -/
+
+theorem argminGap_snd (xs : List α) : (argminGap xs).2 =
+    if ((xs.zipIdx.filter (fun q => q.2 ≠ (argminGap xs).1)).map (·.1)).isEmpty then 1
+    else vmin ((xs.zipIdx.filter (fun q => q.2 ≠ (argminGap xs).1)).map (·.1)) 0 - vmin xs 0 := rfl
+
+theorem argminGap_val (xs : List α) (h : xs ≠ []) : xs.getD (argminGap xs).1 0 = vmin xs 0 := by
+  obtain ⟨hmem, hle⟩ := vmin_spec xs 0 h
+  obtain ⟨hlt, hmin⟩ := argminGap_spec xs h
+  apply le_antisymm
+  · obtain ⟨i, hi, hx⟩ := List.mem_iff_getElem.mp hmem
+    have := hmin i hi
+    rwa [getD_eq_getElem' xs 0 i hi, hx] at this
+  · exact hle _ (getD_mem xs 0 _ hlt)
+
+theorem argminGap_strict (xs : List α) (hgap : 0 < (argminGap xs).2) (j : Nat) (hj : j < xs.length)
+    (hne : j ≠ (argminGap xs).1) : xs.getD (argminGap xs).1 0 < xs.getD j 0 := by
+  have hxs : xs ≠ [] := by intro h; rw [h] at hj; simp at hj
+  rw [argminGap_val xs hxs]
+  rw [argminGap_snd] at hgap
+  have hmem : xs.getD j 0 ∈ (xs.zipIdx.filter (fun q => q.2 ≠ (argminGap xs).1)).map (·.1) := by
+    rw [List.mem_map]
+    refine ⟨(xs.getD j 0, j), ?_, rfl⟩
+    rw [List.mem_filter]
+    refine ⟨?_, by simpa using hne⟩
+    rw [List.mk_mem_zipIdx_iff_getElem?]
+    simp [List.getD_eq_getElem?_getD, List.getElem?_eq_getElem hj]
+  generalize (xs.zipIdx.filter (fun q => q.2 ≠ (argminGap xs).1)).map (·.1) = others at hgap hmem
+  have hne' : others ≠ [] := List.ne_nil_of_mem hmem
+  have hie : others.isEmpty = false := by
+    cases others with
+    | nil => exact absurd rfl hne'
+    | cons => rfl
+  rw [hie] at hgap
+  simp only [Bool.false_eq_true, if_false] at hgap
+  have := (vmin_spec others 0 hne').2 _ hmem
+  linarith
+
+theorem argminGap_perm [Inhabited α] (xs : Vec α) (m : Nat) (hm : 0 < m) (hx : xs.length = m)
+    (p : List Nat) (hp : p.Perm (List.range m)) (hgap : 0 < (argminGap xs).2) :
+    ∃ hk : (argminGap (permV p xs)).1 < p.length,
+      p[(argminGap (permV p xs)).1] = (argminGap xs).1 := by
+  have hpl := perm_length hp
+  have hyl : (permV p xs).length = m := by rw [permV_length, hpl]
+  have hxs : xs ≠ [] := by intro h; rw [h] at hx; simp at hx; omega
+  have hys : permV p xs ≠ [] := by intro h; rw [h] at hyl; simp at hyl; omega
+  obtain ⟨hlt, _⟩ := argminGap_spec xs hxs
+  obtain ⟨hlt', hmin'⟩ := argminGap_spec (permV p xs) hys
+  rw [hyl] at hlt' hmin'
+  refine ⟨by omega, ?_⟩
+  by_contra hne
+  have hpt : p[(argminGap (permV p xs)).1]'(by omega) < m := perm_lt hp _ (List.getElem_mem _)
+  have h1 := argminGap_strict xs hgap _ (by rw [hx]; exact hpt) hne
+  have hkp : (argminGap xs).1 ∈ p := hp.mem_iff.mpr (List.mem_range.mpr (by omega))
+  have ht : p.idxOf (argminGap xs).1 < p.length := List.idxOf_lt_length_iff.mpr hkp
+  have hpk : p[p.idxOf (argminGap xs).1] = (argminGap xs).1 := List.getElem_idxOf ht
+  have h2 := hmin' (p.idxOf (argminGap xs).1) (by omega)
+  rw [permV_getD0 p m hp xs hx _ (by omega), permV_getD0 p m hp xs hx _ ht, hpk] at h2
+  exact absurd h1 (not_lt.mpr h2)
+
+theorem oneHot_perm [Inhabited α] (m : Nat) (p : List Nat) (hp : p.Perm (List.range m)) (k : Nat)
+    (hk : k < p.length) : (oneHot m k : Vec α) = permV p (oneHot m p[k]) := by
+  have hpl := perm_length hp
+  apply List.ext_getElem (by rw [permV_length, hpl, oneHot_length])
+  intro j h1 h2
+  have hj : j < m := by rwa [oneHot_length] at h1
+  have hpj : p[j]'(by omega) < m := perm_lt hp _ (List.getElem_mem _)
+  rw [permV_getElem]
+  simp only [oneHot]
+  rw [map_range_getD _ m _ hpj, List.getElem_map, List.getElem_range]
+  have : (p[j]'(by omega) = p[k]) ↔ (j = k) := perm_inj hp j k (by omega) hk
+  simp only [this]
+
+theorem fwE_perm [Inhabited α] (G : Mat α) (m : Nat) (hG : SymmSquare G m) (a : Vec α)
+    (ha : a.length = m) (p : List Nat) (hp : p.Perm (List.range m))
+    (hgap : 0 < (argminGap (matVec G a)).2) :
+    fwE (permV p (G.map (permV p))) (permV p a) = permV p (fwE G a) := by
+  have hpl := perm_length hp
+  unfold fwE fwT
+  rw [permV_length, hpl, ha, matVec_permV G m hG.1 hG.2.1 a ha p hp]
+  rcases Nat.eq_zero_or_pos m with hm | hm
+  · subst hm
+    have : p = [] := List.eq_nil_of_length_eq_zero hpl
+    subst this
+    simp [oneHot, permV]
+  · obtain ⟨hk, hpk⟩ := argminGap_perm (matVec G a) m hm (by rw [matVec_length, hG.1]) p hp hgap
+    rw [← hpk]
+    exact oneHot_perm m p hp _ hk
+
+theorem fwStep_row_perm' [Inhabited α] (G : Mat α) (m : Nat) (hG : SymmSquare G m) (a : Vec α)
+    (ha : a.length = m) (p : List Nat) (hp : p.Perm (List.range m))
+    (hgap : 0 < (argminGap (matVec G a)).2) :
+    (fwStep (permV p (G.map (permV p))) (permV p a)).1 = permV p (fwStep G a).1 ∧
+    (fwStep (permV p (G.map (permV p))) (permV p a)).2.1 = (fwStep G a).2.1 := by
+  have hpl := perm_length hp
+  have hE := fwE_perm G m hG a ha p hp hgap
+  have hel : (fwE G a).length = m := by rw [fwE_length, ha]
+  have hGG : fwG (permV p (G.map (permV p))) (permV p a) = fwG G a := by
+    unfold fwG
+    rw [hE, matVec_permV G m hG.1 hG.2.1 a ha p hp, matVec_permV G m hG.1 hG.2.1 _ hel p hp,
+      dot_permV p m hp a _ ha (by rw [matVec_length, hG.1]),
+      dot_permV p m hp a _ ha (by rw [matVec_length, hG.1]),
+      dot_permV p m hp _ _ hel (by rw [matVec_length, hG.1])]
+  rw [fwStep_fst, fwStep_fst, fwStep_snd, fwStep_snd, hGG, hE]
+  refine ⟨?_, rfl⟩
+  rw [permV_vadd p m hp _ _ (by rw [smul_length, ha]) (by rw [smul_length, hel]),
+    permV_smul p m hp _ a ha, permV_smul p m hp _ _ hel]
+
+/-! ### the MGDA loop -/
+
+theorem vmin_le_mem (xs : List α) (d x : α) (hx : x ∈ xs) : vmin xs d ≤ x :=
+  (vmin_spec xs d (List.ne_nil_of_mem hx)).2 x hx
+
+theorem go_snd_le (G : Mat α) (eps : α) : ∀ (k : Nat) (a : Vec α) (mg : α),
+    (mgdaWeights.go G eps k a mg).2 ≤ mg
+  | 0, a, mg => le_of_eq rfl
+  | k + 1, a, mg => by
+    rw [Homog.mgda_go_succ]
+    have h : vmin [mg, (fwStep G a).2.2, absV ((fwStep G a).2.1 - eps)] 1 ≤ mg :=
+      vmin_le_mem _ _ _ (by simp)
+    split_ifs
+    · exact h
+    · exact (go_snd_le G eps k _ _).trans h
+
+theorem go_succ_margin (G : Mat α) (eps : α) (k : Nat) (a : Vec α) (mg : α) :
+    (mgdaWeights.go G eps (k + 1) a mg).2 ≤
+      vmin [mg, (fwStep G a).2.2, absV ((fwStep G a).2.1 - eps)] 1 := by
+  rw [Homog.mgda_go_succ]
+  split_ifs
+  · exact le_rfl
+  · exact go_snd_le G eps k _ _
+
+theorem fwStep_margin_le_gap (G : Mat α) (a : Vec α) :
+    (fwStep G a).2.2 ≤ (argminGap (matVec G a)).2 := by
+  rw [Homog.fwStep_unfold]
+  exact vmin_le_mem _ _ _ (by simp)
+
+theorem go_perm [Inhabited α] (G : Mat α) (m : Nat) (hG : SymmSquare G m) (eps : α) (p : List Nat)
+    (hp : p.Perm (List.range m)) : ∀ (k : Nat) (a : Vec α) (mg mgp : α), a.length = m →
+    0 < (mgdaWeights.go G eps k a mg).2 →
+    (mgdaWeights.go (permV p (G.map (permV p))) eps k (permV p a) mgp).1 =
+      permV p (mgdaWeights.go G eps k a mg).1
+  | 0, a, mg, mgp, _, _ => rfl
+  | k + 1, a, mg, mgp, ha, hpos => by
+    have hmg2 := lt_of_lt_of_le hpos (go_succ_margin G eps k a mg)
+    have hstep : 0 < (fwStep G a).2.2 := lt_of_lt_of_le hmg2 (vmin_le_mem _ _ _ (by simp))
+    have hgap := lt_of_lt_of_le hstep (fwStep_margin_le_gap G a)
+    obtain ⟨h1, h2⟩ := fwStep_row_perm' G m hG a ha p hp hgap
+    rw [Homog.mgda_go_succ] at hpos
+    rw [Homog.mgda_go_succ, Homog.mgda_go_succ, h1, h2]
+    by_cases hlt : (fwStep G a).2.1 < eps
+    · rw [if_pos hlt, if_pos hlt]
+    · rw [if_neg hlt] at hpos
+      rw [if_neg hlt, if_neg hlt]
+      exact go_perm G m hG eps p hp k _ _ _ (by rw [Eqv.fwStep_length, ha]) hpos
+
+theorem permV_replicate [Inhabited α] (m : Nat) (p : List Nat) (hp : p.Perm (List.range m)) (c : α) :
+    permV p (List.replicate m c) = List.replicate m c := by
+  have hpl := perm_length hp
+  apply List.ext_getElem (by rw [permV_length, hpl, List.length_replicate])
+  intro t h1 h2
+  rw [permV_getElem, getD_eq_getElem' _ _ _ (by
+    rw [List.length_replicate]; exact perm_lt hp _ (List.getElem_mem _))]
+  simp
+
+theorem mgda_row_perm' [Inhabited α] (G : Mat α) (m : Nat) (hG : SymmSquare G m)
+    (mInv epsilon : α) (K : Nat) (p : List Nat) (hp : p.Perm (List.range m))
+    (hmargin : 0 < (mgdaWeights G m mInv epsilon K).2) :
+    (mgdaWeights (permV p (G.map (permV p))) m mInv epsilon K).1 =
+      permV p (mgdaWeights G m mInv epsilon K).1 := by
+  rw [mgdaWeights_eq] at hmargin
+  rw [mgdaWeights_eq, mgdaWeights_eq]
+  conv_lhs => rw [← permV_replicate m p hp mInv]
+  exact go_perm G m hG epsilon p hp K _ _ _ (List.length_replicate ..) hmargin
+
+end Tjd.Agg.PermL
